@@ -230,9 +230,19 @@ def ob_instances(ctx):
         _DYN[key] = type(str("Twin_" + P["cls"]), (K,), {})
     Twin = _DYN[key]
     r = ctx.mk.seq("r", n, "ACGT")
-    circ = st.record.CircularRecord(st.Seq(r), id="circ")
-    lin = st.SeqRecord(st.Seq(r), id="lin", annotations={"topology": "linear"})
-    order = [circ, lin] if P["first"] == "circular" else [lin, circ]
+    if P["first"] == "same-id":
+        # two different plasmids filed under one accession (a revised sequence), both wrapped by the same class
+        r2 = ctx.mk.seq("r2", n + 1, "ACGT")
+        # the first plasmid is a fixed instance of the class's structure (keeps the obligation to one symbolic search)
+        inst = "".join("A" if ch == "N" else ch for ch in K.structure() if ch not in "()*?")
+        r = (inst + "T" * n)[:n]
+        circ = st.record.CircularRecord(st.Seq(r), id="ACC0001")
+        lin = None
+        order = [circ, st.record.CircularRecord(st.Seq(r2), id="ACC0001")]
+    else:
+        circ = st.record.CircularRecord(st.Seq(r), id="circ")
+        lin = st.SeqRecord(st.Seq(r), id="lin", annotations={"topology": "linear"})
+        order = [circ, lin] if P["first"] == "circular" else [lin, circ]
     alive = []
     for rec in order:
         e = K(rec)
@@ -244,9 +254,10 @@ def ob_instances(ctx):
         ctx.require(v == vt, "verdict-depends-on-an-earlier-entity")
         if v:
             ctx.require(seq_eq(e.overhang_start(), t.overhang_start()) and True, "overhang-depends-on-an-earlier-entity")
-            if rec is circ:  # fragment extraction is only defined for circular records (`<<`); linear ones are outside
+            if rec is not lin:  # fragment extraction is only defined for circular records (`<<`); linear ones are outside
                 ctx.require(seq_eq(e.target_sequence().seq, t.target_sequence().seq), "target-depends-on-an-earlier-entity")
-            ctx.witness("accepted-" + ("circular" if rec is circ else "linear"))
+            ctx.witness("accepted-" + ("linear" if rec is lin else "circular"))
+            ctx.witness("second-entity-accepted", rec is order[1])
     again = K(order[0])
     ctx.require(again.is_valid() == alive[0].is_valid(), "same-record-typed-twice-differs")
     return True
@@ -274,7 +285,7 @@ def obligations(tier, seed):
         obs.append(Ob("foreign priming: " + nm, ob_foreign, dict(f, n=25), samples=4, cost=25 ** 3, group="foreign"))
     for kit, name in ([("ytk", "YTKPart1")] if tier == "quick" else [("ytk", "YTKPart1"), ("ytk", "YTKEntry"), ("cidar", "CIDARCassetteVector")]):
         F = fixed_letters(kit_class(st, kit, name).structure())
-        for first in ("circular", "linear"):
+        for first in ("circular", "linear", "same-id"):
             obs.append(Ob("instances %s.%s n=%d typed %s first" % (kit, name, F + 1, first), ob_instances,
                           dict(kit=kit, cls=name, n=F + 1, first=first), samples=4, cost=3 * (F + 1) ** 3, group="instances",
                           expect_witness=("accepted-circular",)))
